@@ -250,11 +250,19 @@ def reportedOutputs : List Notif → List (String × Option String)
   | .complete p o :: r => (p, o) :: reportedOutputs r
   | _ :: r => reportedOutputs r
 
-/-- transitions `prev -> stage` announced by `OnStageChange` with a previous stage -/
-def transitions : List Notif → List (String × String)
-  | [] => []
-  | .change (some p) _ s :: r => (p, s) :: transitions r
-  | _ :: r => transitions r
+/-- The stage transitions a trace makes, `cur` being the stage the step is known to be in (if any):
+    `OnStageChange(prev, .., stage)` announces `prev -> stage`; a completion that names another stage than the one
+    last entered (`closedEarly`/`startFailed` after `transitionFromFailedStage`, which moves the step without an
+    `OnStageChange`) is the silent transition `cur -> prev`. -/
+def transitionsFrom : Option String → List Notif → List (String × String)
+  | _, [] => []
+  | _, .change (some p) _ s :: r => (p, s) :: transitionsFrom (some s) r
+  | _, .change none _ s :: r => transitionsFrom (some s) r
+  | some c, .complete p _ :: r => if c == p then transitionsFrom (some p) r else (c, p) :: transitionsFrom (some p) r
+  | none, .complete p _ :: r => transitionsFrom (some p) r
+  | cur, .fail _ :: r => transitionsFrom cur r
+
+def transitions (tr : List Notif) : List (String × String) := transitionsFrom none tr
 
 /-- every stage id that occurs anywhere in the trace -/
 def mentioned : List Notif → List String
@@ -423,7 +431,7 @@ inductive Outcome where
   | refused (s : SyncState)   -- a provide call returned "provided more than once"
   | invalid (s : SyncState)   -- a provide call returned another error before touching the state
   | wouldBlock                -- the action reaches a channel send that cannot complete (holding r.lock)
-  | panic (site : String)     -- the action panics
+  | panic (site : String)     -- the action panics (no action of the current code does; kept as an explicit outcome)
   | disabled                  -- the action is not possible in this state
   deriving Repr, DecidableEq
 
@@ -434,16 +442,14 @@ def runMove (s : SyncState) (s' : SyncState) : Outcome :=
 inductive CancelRes where
   | ok (s : SyncState)
   | block             -- `r.signalToStep <- ..` with the channel full
-  | panic             -- nil pointer dereference
 
 /-- `cancelStep()`: called with r.lock held.  Only while the step is in stage `running` (pc `running`/`cancelWait`, and
     `finishing` because currentStage is still `running` until the next transition) the signal is looked at:
-    without a cancel signal handler the code logs an error and goes on to `cancelSignal.DataSchema()` on the nil
-    handler (nil pointer dereference); with one, and the channel not yet set to nil, it sends — a plain blocking send.
-    In every non-panicking case the context is cancelled afterwards. -/
+    without a cancel signal handler the code only logs an error; with one, and the channel not yet set to nil, it
+    sends — a plain blocking send.  In every case the context is cancelled afterwards. -/
 def cancelStep (handler : Bool) (s : SyncState) : CancelRes :=
   if s.pc = .running ∨ s.pc = .cancelWait ∨ s.pc = .finishing then
-    if !handler then .panic
+    if !handler then .ok { s with ctxDone := true }
     else if s.sigOpen then
       if s.sigOcc < pluginChan_signalToStep then
         .ok { s with sigOcc := s.sigOcc + 1, cancelSends := s.cancelSends + 1, ctxDone := true }
@@ -474,7 +480,6 @@ def syncStep (handler : Bool) (s : SyncState) : Act → Outcome
     else match cancelStep handler s with
       | .ok s' => .next s'
       | .block => .wouldBlock
-      | .panic => .panic "cancelStep: nil cancel signal handler dereferenced"
   | .provideOther => .next s
   | .closeCall =>
     -- closed.Swap(true); first caller: cancel(), closeComponents (finds closed set: no-op); then wg.Wait()
@@ -525,7 +530,6 @@ def syncStep (handler : Bool) (s : SyncState) : Act → Outcome
         match cancelStep handler s with
         | .ok s' => runMove s { s' with pc := .cancelWait }
         | .block => .wouldBlock
-        | .panic => .panic "cancelStep: nil cancel signal handler dereferenced"
       else runMove s { s with pc := .finishing, closed := true })      -- forceCloseInternal
     else .disabled
   | .timer =>
@@ -640,8 +644,8 @@ def foreachPaths : List (String × List Notif) := [
   ("closed-waiting-enable", fpath [closedEarly "execute" true]),
   -- enabled == false
   ("disabled", fpath [transitionToDisabled]),
-  -- runOnInput: `case <-r.ctx.Done(): return` or the channel was closed: NOTHING more is reported
-  ("closed-waiting-execute", fpath [enterExecute]),
+  -- runOnInput: `case <-r.ctx.Done()` or the channel was closed  ->  closedEarly(StageIDOutputs, true)
+  ("closed-waiting-execute", fpath [enterExecute, closedEarly "outputs" true]),
   -- processInput, all items succeeded
   ("items-ok", fpath [enterExecute, processOk]),
   -- processInput, some item failed (or the context was cancelled while items were executing)
@@ -650,13 +654,23 @@ def foreachPaths : List (String × List Notif) := [
 
 def foreachEdges : List (String × String) := PluginStep.LifecycleSpec.edgesOf foreachStages
 
+/-- The one transition the foreach provider makes although its lifecycle does not declare it: closed while waiting
+    for the items, `runOnInput` calls `closedEarly`, which moves the step `execute -> closed`; `closed` is only declared
+    as a next stage of `enabling`. -/
+def foreachUndeclaredEdges : List (String × String) := [("execute", "closed")]
+
+/-- strict acceptor: the lifecycle exactly as declared -/
 def foreachAccepts (tr : List Notif) : Bool :=
   PluginStep.LifecycleSpec.accepts foreachStages foreachEdges [] tr
+
+/-- acceptor with the transition relation widened by `foreachUndeclaredEdges` -/
+def foreachAcceptsRelaxed (tr : List Notif) : Bool :=
+  PluginStep.LifecycleSpec.accepts foreachStages (foreachEdges ++ foreachUndeclaredEdges) [] tr
 
 /-! ## Synchronisation skeleton of the foreach provider -/
 
 inductive Pc where
-  | notStarted       -- goroutine created by `Start`; `r.wg.Add(1)` (first statement of run) NOT yet executed
+  | notStarted       -- goroutine created by `Start` (which has already executed `rs.wg.Add(1)`), nothing run yet
   | waitingEnable    -- enableStage select
   | waitingExecute   -- runOnInput select
   | executing        -- processInput / executeSubWorkflows
@@ -675,7 +689,7 @@ structure SyncState where
   wg : Nat
   pc : Pc
   provPending : Bool      -- a ProvideStageInput("execute") caller passed `r.closed.Load()` and holds r.lock, send not done
-  firstCloser : Bool      -- the Close caller that will `close(r.executeInput)` is inside `r.wg.Wait()`
+  firstCloser : Bool      -- the Close caller that will `close(r.executeInput)` is inside `r.wg.Wait()` / `r.lock.Lock()`
   -- ghost
   closeWaiting : Nat      -- further callers inside `r.wg.Wait()`
   closeReturned : Nat
@@ -683,6 +697,7 @@ structure SyncState where
   completions : Nat       -- OnStepComplete calls so far
   deriving Repr, DecidableEq
 
+/-- the state `Start` returns in: `rs.wg.Add(1); go rs.run()` -/
 def syncInit : SyncState :=
   { enabledAvail := false
     execAvail := false
@@ -691,7 +706,7 @@ def syncInit : SyncState :=
     execChanClosed := false
     closed := false
     ctxDone := false
-    wg := 0
+    wg := 1
     pc := .notStarted
     provPending := false
     firstCloser := false
@@ -706,13 +721,13 @@ inductive Act where
   | provideExecuteSend                   -- `r.executeInput <- ..` (still holding the lock), unlock
   | provideOther
   | closeCall                            -- Close or ForceClose (ForceClose just calls Close)
-  | closeReturnFirst                     -- first caller: Wait returned; `close(r.executeInput)`; return
+  | closeReturnFirst                     -- first caller: Wait returned; lock; `close(r.executeInput)`; unlock; return
   | closeReturn                          -- later callers
-  | runBegin                             -- `r.wg.Add(1)`, enter enableStage
+  | runBegin                             -- enter enableStage
   | recvEnabled (enabled : Bool)
   | ctxAtEnable
   | recvExecute                          -- input received in runOnInput
-  | ctxAtExecute                         -- `case <-r.ctx.Done()` or closed channel in runOnInput: return WITHOUT completion
+  | ctxAtExecute                         -- `case <-r.ctx.Done()` or closed channel in runOnInput: closedEarly(outputs, true)
   | itemsDone                            -- executeSubWorkflows returned, completion reported
   | runExit                              -- deferred `r.wg.Done()`
   deriving Repr, DecidableEq
@@ -755,7 +770,8 @@ def syncStep (s : SyncState) : Act → Outcome
     if s.closed then .next { s with closeWaiting := s.closeWaiting + 1 }
     else .next { s with closed := true, ctxDone := true, firstCloser := true }
   | .closeReturnFirst =>
-    if s.firstCloser ∧ s.wg = 0 then
+    -- `r.lock.Lock()` before `close(r.executeInput)`: not while a provider holds the lock
+    if s.firstCloser ∧ s.wg = 0 ∧ s.provPending = false then
       .next { s with firstCloser := false, execChanClosed := true, closeReturned := s.closeReturned + 1 }
     else .disabled
   | .closeReturn =>
@@ -763,7 +779,7 @@ def syncStep (s : SyncState) : Act → Outcome
       .next { s with closeWaiting := s.closeWaiting - 1, closeReturned := s.closeReturned + 1 }
     else .disabled
   | .runBegin =>
-    if s.pc = .notStarted then runMove s { s with pc := .waitingEnable, wg := s.wg + 1 } else .disabled
+    if s.pc = .notStarted then runMove s { s with pc := .waitingEnable } else .disabled
   | .recvEnabled enabled =>
     if s.pc = .waitingEnable ∧ 0 < s.enabledOcc then
       runMove s { s with pc := (if enabled then .waitingExecute else .finishing), enabledOcc := s.enabledOcc - 1,
@@ -778,7 +794,8 @@ def syncStep (s : SyncState) : Act → Outcome
       runMove s { s with pc := .executing, execOcc := s.execOcc - 1 }
     else .disabled
   | .ctxAtExecute =>
-    if s.pc = .waitingExecute ∧ (s.ctxDone ∨ s.execChanClosed) then runMove s { s with pc := .finishing }
+    if s.pc = .waitingExecute ∧ (s.ctxDone ∨ s.execChanClosed) then
+      runMove s { s with pc := .finishing, completions := s.completions + 1 }
     else .disabled
   | .itemsDone =>
     if s.pc = .executing then runMove s { s with pc := .finishing, completions := s.completions + 1 } else .disabled
@@ -788,11 +805,6 @@ def syncStep (s : SyncState) : Act → Outcome
 inductive Reachable : SyncState → Prop where
   | init : Reachable syncInit
   | step {s s' : SyncState} (a : Act) : Reachable s → syncStep s a = .next s' → Reachable s'
-
-/-- reachability when no close call is made before `run()` has executed `r.wg.Add(1)` -/
-inductive ReachableRegistered : SyncState → Prop where
-  | init {s : SyncState} : syncStep syncInit .runBegin = .next s → ReachableRegistered s
-  | step {s s' : SyncState} (a : Act) : ReachableRegistered s → syncStep s a = .next s' → ReachableRegistered s'
 
 def execute : SyncState → List Act → Option SyncState
   | s, [] => some s
